@@ -192,7 +192,7 @@ def _strip_for_tla(o):
     if isinstance(o, dict):
         if o.get("x") == "lit":
             return {"x": "lit"}
-        return {k: _strip_for_tla(v) for k, v in o.items() if k not in ("name", "cfg", "fam", "bools", "lex", "xattrs", "selfclose", "main", "libs")}
+        return {k: _strip_for_tla(v) for k, v in o.items() if k not in ("name", "cfg", "fam", "bools", "lex", "xattrs", "selfclose", "main", "libs", "implicit")}
     if isinstance(o, (list, tuple)):
         return [_strip_for_tla(x) for x in o]
     return o
